@@ -65,9 +65,20 @@ pub open spec fn st_ok(gen: XGenerator, current: Option<BIter<(), (), ()>>, flag
 /// `iter::repeat_with(f)`: the endless iterator f(), f(), ..
 pub struct RepeatWith<F> { pub f: F }
 pub struct Flattened { pub id: Ghost<int> }
+/// an iterator every `next` of which returns
+pub trait VxAnswers: Sized {}
+impl VxAnswers for Flattened {}
+/// `iter::from_fn(f)`: calls f once per requested element (f's termination is the step function's contract)
+pub struct FromFn { pub id: Ghost<int> }
+impl VxAnswers for FromFn {}
+pub struct OpaqueStep;
+#[verifier::external_body]
+pub fn vx_opaque_closure() -> (r: OpaqueStep) { unimplemented!() }
 pub mod iter {
     use super::*;
     pub fn repeat_with<F: FnMut() -> BIter<(), (), ()>>(f: F) -> (r: RepeatWith<F>) ensures r.f == f { RepeatWith { f } }
+    #[verifier::external_body]
+    pub fn from_fn(f: OpaqueStep) -> (r: FromFn) { unimplemented!() }
 }
 impl<F: FnMut() -> BIter<(), (), ()>> RepeatWith<F> {
     /// `Iterator::flatten` over an endless outer iterator: `next` loops over the inner iterators until one yields, so it
